@@ -162,7 +162,7 @@ def drain(ctx, db):
                     seg = tr[loops[a]:loops[a + 1]]
                     pops = sum(1 for it in seg if it.k == 'call' and norm(it.get('callee')) == 'cocls::queue::pop')
                     waits = sum(1 for it in seg if it.k == 'call' and norm(it.get('callee')) in ('cocls::future::wait', 'cocls::future::sync', 'cocls::future::force_wait', 'cocls::future::force_sync', 'cocls::future::join'))
-                    dec = sum(1 for it in seg if it.k == 'write' and (it.get('path') or '') == 'this->_count' and (it.get('op') in ('--',) or (it.get('op') == '-=' and it.get('const') == 1)))
+                    dec = sum(1 for it in seg if it.k == 'write' and (it.get('path') or '') == 'this->_count' and delta_of_write(it) == -1)
                     if (pops, waits, dec) != (1, 1, 1):
                         bad = bad or 'a drain iteration pops %d, waits %d, decrements %d (expected one each)' % (pops, waits, dec)
         ctx.ob(rid, f, f['key'], bad is None, 'drain until at most one source is counted, one blocking pop per iteration' + ('' if not bad else ' -- ' + bad), desc=(bad[:100] if bad else None))
